@@ -48,6 +48,11 @@ type Case struct {
 	Good  int `json:"good,omitempty"`
 	Cap   int `json:"cap,omitempty"`
 	Stall int `json:"stall,omitempty"`
+	// legs2.go, leg connstats: the connection is built with this counter set and outbound queue size and runs in a CHILD
+	// process (a panic in the reader goroutine is process death). Stats: "" = as before (nil, in-process) | nil | 0 | 1 | … (stats.New(n))
+	Stats   string `json:"stats,omitempty"`
+	NoAlloc bool   `json:"noalloc,omitempty"` // legs2.go: the allocation of the call is not measured (compressed-flag frames: runCase does not judge it, and measuring stops the world twice per case)
+	Out     int    `json:"out,omitempty"`     // outbound queue size is Out-1 when Out > 0 (so that 0 can be asked for); 8 otherwise
 }
 
 func (c *Case) v() int {
@@ -151,6 +156,16 @@ func childMain() {
 	var c Case
 	if err := json.NewDecoder(os.Stdin).Decode(&c); err != nil {
 		os.Exit(3)
+	}
+	if strings.HasPrefix(c.Kind, "conn") { // legs2.go
+		log.SetOutput(io.Discard)
+		var o connObs
+		o.Errs, o.Pkts, o.First = connTry(&c, hxcodec.Expand(c.Data), 3*time.Second)
+		if o.Errs == 0 {
+			o.Errs, o.Pkts, o.First = connTry(&c, hxcodec.Expand(c.Data), 10*time.Second)
+		}
+		json.NewEncoder(os.Stdout).Encode(&o)
+		return
 	}
 	data := hxcodec.Expand(c.Data)
 	rd := hxcodec.NewReader(data, c.Ck)
@@ -256,97 +271,108 @@ func runCase(r *hxlib.Run, c *Case) {
 	}
 }
 
+// connTry: one live connection fed data (see runConn).
+func connTry(c *Case, data []byte, wait time.Duration) (errs int, pkts int, first string) {
+	ln, err := net.Listen("tcp", "127.0.0.1:0")
+	if err != nil {
+		return -1, 0, err.Error()
+	}
+	defer ln.Close()
+	acc := make(chan net.Conn, 1)
+	go func() {
+		s, err := ln.Accept()
+		if err == nil {
+			acc <- s
+		}
+	}()
+	peer, err := net.Dial("tcp", ln.Addr().String())
+	if err != nil {
+		return -1, 0, err.Error()
+	}
+	defer peer.Close()
+	var srv net.Conn
+	select {
+	case srv = <-acc:
+	case <-time.After(5 * time.Second):
+		return -1, 0, "accept timed out"
+	}
+	defer srv.Close()
+	errChan := make(chan error, 8)
+	capIn := 8
+	if c.Cap > 0 {
+		capIn = c.Cap
+	}
+	inbound := make(chan fatchoy.IPacket, capIn)
+	tc := qnet.NewTcpConn(fatchoy.NodeID(1), srv, hxcodec.Encoder(c.v(), 0), errChan, inbound, outOf(c), statsOf(c))
+	tc.SetEncryptPair(hxcodec.Cryptor(c.Key), hxcodec.Cryptor(c.Key))
+	tc.Go(fatchoy.EndpointReader)
+	peer.Write(data)
+	deadline := time.After(wait)
+	if c.Good > 0 {
+		time.Sleep(time.Duration(c.Stall) * time.Millisecond) // the consumer is stalled (this makes the schedule; it is not an oracle)
+		for errs == 0 {
+			select {
+			case <-inbound:
+				pkts++
+			case e := <-errChan:
+				errs, first = 1, e.Error()
+			case <-deadline:
+				return 0, pkts, ""
+			}
+		}
+		for grace := time.After(150 * time.Millisecond); grace != nil; {
+			select {
+			case <-inbound:
+				pkts++
+			case <-errChan:
+				errs++
+			case <-grace:
+				grace = nil
+			}
+		}
+		if tc.IsRunning() {
+			first += " (connection still running)"
+			errs = -2
+		}
+		return errs, pkts, first
+	}
+	select {
+	case e := <-errChan:
+		errs, first = 1, e.Error()
+	case <-deadline:
+		return 0, len(inbound), ""
+	}
+	// a second error or a delivery would be wrong; give them a moment to show up
+	select {
+	case <-errChan:
+		errs++
+	case <-time.After(100 * time.Millisecond):
+	}
+	running := tc.IsRunning()
+	if running {
+		first += " (connection still running)"
+		errs = -2
+	}
+	return errs, len(inbound), first
+}
+
 // runConn feeds the stream to a live TcpConn reader over loopback TCP: exactly one error must
 // surface and nothing may be delivered (the deadline is generous and a suspected hang is re-run).
 func runConn(r *hxlib.Run, c *Case) {
 	data := hxcodec.Expand(c.Data)
-	try := func(wait time.Duration) (errs int, pkts int, first string) {
-		ln, err := net.Listen("tcp", "127.0.0.1:0")
-		if err != nil {
-			return -1, 0, err.Error()
-		}
-		defer ln.Close()
-		acc := make(chan net.Conn, 1)
-		go func() {
-			s, err := ln.Accept()
-			if err == nil {
-				acc <- s
-			}
-		}()
-		peer, err := net.Dial("tcp", ln.Addr().String())
-		if err != nil {
-			return -1, 0, err.Error()
-		}
-		defer peer.Close()
-		var srv net.Conn
-		select {
-		case srv = <-acc:
-		case <-time.After(5 * time.Second):
-			return -1, 0, "accept timed out"
-		}
-		defer srv.Close()
-		errChan := make(chan error, 8)
-		capIn := 8
-		if c.Cap > 0 {
-			capIn = c.Cap
-		}
-		inbound := make(chan fatchoy.IPacket, capIn)
-		tc := qnet.NewTcpConn(fatchoy.NodeID(1), srv, hxcodec.Encoder(c.v(), 0), errChan, inbound, 8, nil)
-		tc.SetEncryptPair(hxcodec.Cryptor(c.Key), hxcodec.Cryptor(c.Key))
-		tc.Go(fatchoy.EndpointReader)
-		peer.Write(data)
-		deadline := time.After(wait)
-		if c.Good > 0 {
-			time.Sleep(time.Duration(c.Stall) * time.Millisecond) // the consumer is stalled (this makes the schedule; it is not an oracle)
-			for errs == 0 {
-				select {
-				case <-inbound:
-					pkts++
-				case e := <-errChan:
-					errs, first = 1, e.Error()
-				case <-deadline:
-					return 0, pkts, ""
-				}
-			}
-			for grace := time.After(150 * time.Millisecond); grace != nil; {
-				select {
-				case <-inbound:
-					pkts++
-				case <-errChan:
-					errs++
-				case <-grace:
-					grace = nil
-				}
-			}
-			if tc.IsRunning() {
-				first += " (connection still running)"
-				errs = -2
-			}
-			return errs, pkts, first
-		}
-		select {
-		case e := <-errChan:
-			errs, first = 1, e.Error()
-		case <-deadline:
-			return 0, len(inbound), ""
-		}
-		// a second error or a delivery would be wrong; give them a moment to show up
-		select {
-		case <-errChan:
-			errs++
-		case <-time.After(100 * time.Millisecond):
-		}
-		running := tc.IsRunning()
-		if running {
-			first += " (connection still running)"
-			errs = -2
-		}
-		return errs, len(inbound), first
+	if c.Stats != "" {
+		runConnChild(r, c, data) // legs2.go
+		return
 	}
+	try := func(wait time.Duration) (int, int, string) { return connTry(c, data, wait) }
 	errs, pkts, first := try(3 * time.Second)
 	if errs == 0 {
 		errs, pkts, first = try(10 * time.Second) // re-run a suspected hang before believing it
 	}
+	judgeConn(r, c, data, errs, pkts, first)
+}
+
+func judgeConn(r *hxlib.Run, c *Case, data []byte, errs, pkts int, first string) {
 	r.Count(fmt.Sprintf("%s:errors=%d", c.Kind, errs))
 	key := "conn:" + c.Kind + ":" + c.Class
 	switch {
@@ -629,8 +655,10 @@ func main() {
 	}
 	if os.Getenv("HX_LEGS_ONLY") != "" { // development: the legs of search.go alone
 		legs(r)
+		legs2(r)
 		return
 	}
 	generate(r)
-	legs(r) // search.go (after the generators, so that the smallest failing case of a kind is recorded first): cheap legs in every tier, the 10-60 s ones from thorough on, the rest with -search only
+	legs2(r) // legs2.go: second round (connection constructor arguments in a child process, zlib stream shapes, forged checksum values)
+	legs(r)  // search.go (after the generators, so that the smallest failing case of a kind is recorded first): cheap legs in every tier, the 10-60 s ones from thorough on, the rest with -search only
 }
